@@ -136,6 +136,31 @@ func (a *Analyzer) AnalyzeResolved(resolved *include.ResolvedJournal) *AnalysisR
 	return result
 }
 
+// includedJournals returns the included files in a fixed order (include order,
+// then any remaining file by path): the lists built from them feed completion
+// and must not depend on map iteration order.
+func includedJournals(resolved *include.ResolvedJournal) []*ast.Journal {
+	journals := make([]*ast.Journal, 0, len(resolved.Files))
+	seen := make(map[string]bool, len(resolved.Files))
+	for _, path := range resolved.FileOrder {
+		if journal, ok := resolved.Files[path]; ok && !seen[path] {
+			seen[path] = true
+			journals = append(journals, journal)
+		}
+	}
+	rest := make([]string, 0)
+	for path := range resolved.Files {
+		if !seen[path] {
+			rest = append(rest, path)
+		}
+	}
+	sort.Strings(rest)
+	for _, path := range rest {
+		journals = append(journals, resolved.Files[path])
+	}
+	return journals
+}
+
 func collectAccountsFromResolved(resolved *include.ResolvedJournal) *AccountIndex {
 	idx := NewAccountIndex()
 	seen := make(map[string]bool)
@@ -149,7 +174,7 @@ func collectAccountsFromResolved(resolved *include.ResolvedJournal) *AccountInde
 		}
 	}
 
-	for _, journal := range resolved.Files {
+	for _, journal := range includedJournals(resolved) {
 		for _, name := range CollectAccounts(journal).All {
 			if !seen[name] {
 				seen[name] = true
@@ -174,7 +199,7 @@ func collectPayeesFromResolved(resolved *include.ResolvedJournal) []string {
 		}
 	}
 
-	for _, journal := range resolved.Files {
+	for _, journal := range includedJournals(resolved) {
 		for _, p := range CollectPayees(journal) {
 			if !seen[p] {
 				seen[p] = true
@@ -199,7 +224,7 @@ func collectCommoditiesFromResolved(resolved *include.ResolvedJournal) []string 
 		}
 	}
 
-	for _, journal := range resolved.Files {
+	for _, journal := range includedJournals(resolved) {
 		for _, c := range CollectCommodities(journal) {
 			if !seen[c] {
 				seen[c] = true
@@ -224,7 +249,7 @@ func collectTagsFromResolved(resolved *include.ResolvedJournal) []string {
 		}
 	}
 
-	for _, journal := range resolved.Files {
+	for _, journal := range includedJournals(resolved) {
 		for _, t := range CollectTags(journal) {
 			if !seen[t] {
 				seen[t] = true
@@ -258,7 +283,7 @@ func collectTagValuesFromResolved(resolved *include.ResolvedJournal) map[string]
 	}
 
 	mergeTagValues(resolved.Primary)
-	for _, journal := range resolved.Files {
+	for _, journal := range includedJournals(resolved) {
 		mergeTagValues(journal)
 	}
 
@@ -282,7 +307,7 @@ func collectDatesFromResolved(resolved *include.ResolvedJournal) []string {
 	}
 
 	mergeDates(resolved.Primary)
-	for _, journal := range resolved.Files {
+	for _, journal := range includedJournals(resolved) {
 		mergeDates(journal)
 	}
 
@@ -325,7 +350,7 @@ func collectAccountCountsFromResolved(resolved *include.ResolvedJournal) map[str
 		}
 	}
 	mergeCounts(resolved.Primary)
-	for _, journal := range resolved.Files {
+	for _, journal := range includedJournals(resolved) {
 		mergeCounts(journal)
 	}
 	return counts
@@ -342,7 +367,7 @@ func collectPayeeCountsFromResolved(resolved *include.ResolvedJournal) map[strin
 		}
 	}
 	mergeCounts(resolved.Primary)
-	for _, journal := range resolved.Files {
+	for _, journal := range includedJournals(resolved) {
 		mergeCounts(journal)
 	}
 	return counts
@@ -359,7 +384,7 @@ func collectCommodityCountsFromResolved(resolved *include.ResolvedJournal) map[s
 		}
 	}
 	mergeCounts(resolved.Primary)
-	for _, journal := range resolved.Files {
+	for _, journal := range includedJournals(resolved) {
 		mergeCounts(journal)
 	}
 	return counts
@@ -376,7 +401,7 @@ func collectTagCountsFromResolved(resolved *include.ResolvedJournal) map[string]
 		}
 	}
 	mergeCounts(resolved.Primary)
-	for _, journal := range resolved.Files {
+	for _, journal := range includedJournals(resolved) {
 		mergeCounts(journal)
 	}
 	return counts
@@ -389,7 +414,7 @@ func collectDeclaredAccountsFromResolved(resolved *include.ResolvedJournal) map[
 			declared[k] = true
 		}
 	}
-	for _, journal := range resolved.Files {
+	for _, journal := range includedJournals(resolved) {
 		for k := range collectDeclaredAccounts(journal) {
 			declared[k] = true
 		}
@@ -504,7 +529,7 @@ func collectDeclaredCommoditiesFromResolved(resolved *include.ResolvedJournal) m
 			declared[k] = true
 		}
 	}
-	for _, journal := range resolved.Files {
+	for _, journal := range includedJournals(resolved) {
 		for k := range collectDeclaredCommodities(journal) {
 			declared[k] = true
 		}
